@@ -329,6 +329,44 @@ func liftedSortFlag(seq dag.Seq) string {
 	return ""
 }
 
+// sortedSummarizeBelowFanIn: a summarize told that its input is sorted (InputSortDir) although
+// it reads the unordered combine of several parallel legs.
+func sortedSummarizeBelowFanIn(seq dag.Seq) bool {
+	for i, op := range seq {
+		var paths []dag.Seq
+		switch op := op.(type) {
+		case *dag.Fork:
+			paths = op.Paths
+		case *dag.Scatter:
+			paths = op.Paths
+		case *dag.Scope:
+			if sortedSummarizeBelowFanIn(op.Body) {
+				return true
+			}
+		}
+		for _, p := range paths {
+			if sortedSummarizeBelowFanIn(p) {
+				return true
+			}
+		}
+		if len(paths) < 2 {
+			continue
+		}
+		for j := i + 1; j < len(seq); j++ {
+			if _, ok := seq[j].(*dag.Merge); ok {
+				break
+			}
+			if s, ok := seq[j].(*dag.Summarize); ok {
+				if s.InputSortDir != 0 {
+					return true
+				}
+				break
+			}
+		}
+	}
+	return false
+}
+
 // adjacentFilters: two filters in a row anywhere mergeFilters looks.
 func adjacentFilters(seq dag.Seq) bool {
 	for i, op := range seq {
@@ -402,6 +440,12 @@ func (c *c07Case) classify(l *TLake, o c07Outcome) string {
 	if o.Op.Panicked || o.Un.Panicked {
 		return "C07:panic:" + shapeOf(c.Prog)
 	}
+	if isTimeout(o.Un) != isTimeout(o.Op) {
+		if t := c.Prog.Text(); strings.Contains(t, "fork") && (strings.Contains(t, "merge") || strings.Contains(t, "join")) {
+			return "C07:hang:fork-fanin"
+		}
+		return "C07:hang:" + shapeOf(c.Prog)
+	}
 	src := l
 	if c.Check != "lake" {
 		src = nil
@@ -423,6 +467,9 @@ func (c *c07Case) classify(l *TLake, o c07Outcome) string {
 	}
 	if r := liftedSortFlag(o.Op.After); r != "" {
 		return r
+	}
+	if sortedSummarizeBelowFanIn(o.Op.After) {
+		return "C07:sortkey:fanin-combine"
 	}
 	if before != nil {
 		if r := findLifted(before, func(next dag.Op) string {
@@ -497,8 +544,16 @@ func (c *c07Case) evaluate(l *TLake) *c07Report {
 	if o.Diff == "" {
 		return r
 	}
+	if isTimeout(o.Un) || isTimeout(o.Op) {
+		// a one-sided hang (confirmed with the long timeout): reported as is, shrinking would cost
+		// half a minute per step
+		r.min, r.mo = c, o
+		r.key = c.classify(l, o)
+		r.kind = "oracle"
+		return r
+	}
 	runs := 0
-	wasTimeout := isTimeout(o.Un) || isTimeout(o.Op)
+	wasTimeout := false
 	min := c.shrink(l, func(t *c07Case) bool {
 		if runs++; runs > 40 {
 			return false
@@ -648,6 +703,13 @@ func diffOps(a, b string) string {
 
 // ---- main -----------------------------------------------------------------------------------
 
+// hangProne: a fork feeding a merge or a join deadlocks in the runtime once its input spans
+// several batches (in whichever plan pulls the legs unevenly; recorded as C07:hang:fork-fanin and
+// replayed in the thorough tier); such programs get inputs of one batch.
+func hangProne(q string) bool {
+	return strings.Contains(q, "fork") && (strings.Contains(q, "merge") || strings.Contains(q, "join"))
+}
+
 var declaredKeys = []string{"", "", "k:asc", "k:desc", "a:asc", "n.x:asc"}
 
 // sortedInput orders generated values the way a source declared `key` would deliver them:
@@ -699,7 +761,7 @@ func runC07(c *Ctx) {
 	}
 
 	var progs []OptProg
-	for i := 0; i < c.N(260, 9000); i++ {
+	for i := 0; i < c.N(260, 2600); i++ {
 		progs = append(progs, OptGenProg(c.Rng))
 	}
 	for _, p := range progs[:4] {
@@ -728,7 +790,10 @@ func runC07(c *Ctx) {
 	if c.Want("behav") {
 		var behav []*c07Case
 		for i, p := range progs {
-			n := []int{0, 1, 3, 12, 40}[c.Rng.Intn(5)]
+			n := []int{0, 1, 3, 12, 40, 260}[c.Rng.Intn(6)]
+			if hangProne(p.Text()) && n > 40 {
+				n = 40
+			}
 			vals := OptGenInput(c.Rng, n)
 			key := declaredKeys[i%len(declaredKeys)]
 			if in := sortedInput(vals, key); in != nil {
@@ -737,6 +802,23 @@ func runC07(c *Ctx) {
 				key = ""
 			}
 			behav = append(behav, &c07Case{Check: "behav", Prog: p, Input: vals, SortKey: key})
+		}
+		// the shapes every rewrite must be seen on, behaviourally as well: small inputs, and inputs
+		// spanning several batches (sorted-input release of summarize, merge of many values)
+		for i, q := range c07StructSeeds {
+			for j, key := range []string{"", "k:asc", "k:desc"} {
+				n := []int{3, 12, 260}[(i+j)%3]
+				if hangProne(q) && n > 40 {
+					n = 40
+				}
+				vals := OptGenInput(c.Rng, n)
+				if in := sortedInput(vals, key); in != nil {
+					vals = in
+				} else {
+					key = ""
+				}
+				behav = append(behav, &c07Case{Check: "behav", Prog: OptProg{Stages: strings.Split(q, " | ")}, Input: vals, SortKey: key})
+			}
 		}
 		checkAll(c, l, behav)
 	}
@@ -770,6 +852,8 @@ var c07StructSeeds = []string{
 	"fork (=> where a==1 | where b==1 => pass | pass) | where k==1",
 	"fork (=> pass => pass) | sort k",
 	"fork (=> pass => pass) | sort k | head 2",
+	"fork (=> pass => pass) | sort -r k", "fork (=> pass => pass) | sort -nulls first k", "fork (=> pass => pass) | sort k desc",
+	"fork (=> pass => pass) | sort -r k | head 2", "fork (=> pass => pass) | merge k | sort k desc",
 	"fork (=> pass => pass) | merge k | sort k",
 	"fork (=> pass => pass) | merge k | sort a",
 	"fork (=> pass => pass) | merge k | where a==1",
